@@ -100,6 +100,7 @@ def gen_engine(
     infinite=False,
     free_weights=False,
     share_defuzzifier=False,
+    routes=False,
 ):
     nin, nout, nrb = rnd.randint(1, max_inputs), rnd.randint(1, 2), rnd.randint(1, 2)
     off = (lambda p: rnd.random() < p) if flags else (lambda p: False)
@@ -161,6 +162,8 @@ def gen_engine(
     if share_defuzzifier and rnd.random() < 0.5:
         # one Automatic weighted defuzzifier object for all the weighted output variables (what Engine.configure does)
         spec["shared_defuzzifier"] = rnd.choice(["WeightedAverage", "WeightedSum"])
+    if routes:
+        spec["route"] = rnd.choice(ROUTES)
     if descriptions:
         for part in spec["outputs"] + spec["blocks"]:
             part["description"] = rnd.choice(["", "", "some text: with a colon", "x = 1, y = 2 (approx.)"])
@@ -190,35 +193,99 @@ def build_defuzzifier(fl, dz):
     return getattr(fl, dz["cls"])(dz["resolution"]) if "resolution" in dz else getattr(fl, dz["cls"])(dz["type"])
 
 
-def build(fl, spec):
+ROUTES = ["constructors", "constructors", "factories", "fll", "python", "configure", "copy", "rule-create-with-engine"]
+
+
+def build(fl, spec, route=None):
+    """route: how the engine comes into being (all must give the same engine): plain constructors; components from the
+    factories + configure(parameters); through its FLL text; through its Python representation; operators given by name to
+    Engine.configure; a deep copy; rules created with Rule.create(text, engine)"""
+    route = route or spec.get("route") or "constructors"
+    e = _build(fl, spec, route)
+    if route == "fll":
+        with fl.settings.context(decimals=17):
+            e2 = fl.FllImporter().from_string(fl.FllExporter().to_string(e))
+        e = _restore_flags(spec, e2)
+    elif route == "python":
+        e2 = eval(repr(e), {"fl": fl, "fuzzylite": fl})  # noqa: S307
+        e = _restore_flags(spec, e2)
+    elif route == "copy":
+        e = e.copy()
+        e.restart()
+    return e
+
+
+def _restore_flags(spec, e):
+    """what the text forms cannot carry (recorded findings): Rule.enabled; and weights that are not written with all digits"""
+    for rb, rbs in zip(e.rule_blocks, spec["blocks"]):
+        for r, rs in zip(rb.rules, rbs["rules"]):
+            r.enabled = rs["enabled"]
+            r.weight = rs["weight"]
+    return e
+
+
+def _term(fl, t, e, route):
+    if route == "factories" and t["cls"] not in ("Function", "Linear", "Discrete"):
+        term = fl.settings.factory_manager.term.construct(t["cls"], name=t["name"])
+        params = list(t["params"]) + ([t["height"]] if (t["cls"] != "Constant" and t.get("height", 1.0) != 1.0) else [])
+        term.configure(" ".join(repr(float(p)) for p in params))
+        return term
+    return G.build_term(fl, t, e)
+
+
+def _build(fl, spec, route):
     e = fl.Engine(spec["name"], spec["description"])
     shared = getattr(fl, spec["shared_defuzzifier"])() if spec.get("shared_defuzzifier") else None
     for v in spec["inputs"]:
-        e.input_variables.append(fl.InputVariable(v["name"], v["description"], v["enabled"], v["minimum"], v["maximum"], v["lock_range"], [G.build_term(fl, t, e) for t in v["terms"]]))
+        e.input_variables.append(fl.InputVariable(v["name"], v["description"], v["enabled"], v["minimum"], v["maximum"], v["lock_range"], [_term(fl, t, e, route) for t in v["terms"]]))
     for v in spec["outputs"]:
         e.output_variables.append(
             fl.OutputVariable(
                 v["name"], v["description"], v["enabled"], v["minimum"], v["maximum"], v["lock_range"], v["lock_previous"], v["default_value"],
                 getattr(fl, v["aggregation"])() if v["aggregation"] else None,
                 shared if (shared is not None and v["defuzzifier"] and "type" in v["defuzzifier"]) else build_defuzzifier(fl, v["defuzzifier"]),
-                [G.build_term(fl, t, e) for t in v["terms"]],
+                [_term(fl, t, e, route) for t in v["terms"]],
             )
         )  # fmt: skip
     for rb in spec["blocks"]:
         rules = []
         for r in rb["rules"]:
-            rule = fl.Rule.create(r["text"])
+            rule = fl.Rule.create(r["text"], e) if route == "rule-create-with-engine" else fl.Rule.create(r["text"])
             rule.weight = r["weight"]  # set on the object too: the spec, not the parser, is the ground truth
             rule.enabled = r["enabled"]
             rules.append(rule)
         a = rb["activation"]
-        op = lambda k: getattr(fl, rb[k])() if rb[k] else None  # noqa: E731
+        if route == "factories":
+            fm = fl.settings.factory_manager
+            op = lambda k: (fm.tnorm if k != "disjunction" else fm.snorm).construct(rb[k]) if rb[k] else None  # noqa: E731
+        else:
+            op = lambda k: getattr(fl, rb[k])() if rb[k] else None  # noqa: E731
         e.rule_blocks.append(fl.RuleBlock(rb["name"], rb["description"], rb["enabled"], op("conjunction"), op("disjunction"), op("implication"), getattr(fl, a["cls"])(*a.get("args", ())) if a else None, rules))
     for v in e.variables:
         for t in v.terms:
             t.update_reference(e)
     for rb in e.rule_blocks:
         rb.load_rules(e)
+    if route == "configure" and not spec.get("shared_defuzzifier"):
+        # the same operators again, given by name to the block / variable (what Engine.configure does for a whole engine)
+        fm = fl.settings.factory_manager
+        for rb, rbs in zip(e.rule_blocks, spec["blocks"]):
+            for k, factory in (("conjunction", fm.tnorm), ("disjunction", fm.snorm), ("implication", fm.tnorm)):
+                if rbs[k]:
+                    setattr(rb, k, factory.construct(rbs[k]))
+            if rbs["activation"]:
+                act = fm.activation.construct(rbs["activation"]["cls"])
+                args = rbs["activation"].get("args", [])
+                if args:
+                    act.configure(" ".join(repr(a) if isinstance(a, float) else str(a) for a in args))
+                rb.activation = act
+        for ov, ovs in zip(e.output_variables, spec["outputs"]):
+            if ovs["aggregation"]:
+                ov.aggregation = fm.snorm.construct(ovs["aggregation"])
+            if ovs["defuzzifier"]:
+                dz = fm.defuzzifier.construct(ovs["defuzzifier"]["cls"])
+                dz.configure(str(ovs["defuzzifier"].get("resolution", ovs["defuzzifier"].get("type", ""))))
+                ov.defuzzifier = dz
     return e
 
 
